@@ -203,9 +203,16 @@ theorem chooseKex_agree {c s : LocalAlgs} (ck sk : Bytes) (hm : MarkerFree c s) 
   simp only [chooseAlg, sentKexInit, if_true, Bool.false_eq_true, if_false]
   rw [firstIn_append_right _ _ _ hm.1, firstIn_append_left _ _ _ hm.2]
 
+theorem chooseOrErr_swap (a b : List Name) : chooseOrErr true a b = chooseOrErr false b a := by
+  simp only [chooseOrErr, chooseAlg, chooseErr, if_true, Bool.false_eq_true, if_false]
+  rw [Bool.or_comm]
+
+theorem chooseOrErr_ok {isClient : Bool} {a b : List Name} {x : Name} :
+    chooseOrErr isClient a b = .ok x ↔ chooseAlg isClient a b = some x := optErr_ok
+
 theorem negotiateRest_agree (c s : LocalAlgs) (ck sk : Bytes) (kex : Name) :
     negotiateRest true c (sentKexInit false sk s) kex = negotiateRest false s (sentKexInit true ck c) kex := by
-  simp [negotiateRest, sentKexInit, chooseAlg]
+  simp only [negotiateRest, sentKexInit, chooseOrErr_swap]
 
 /-- **Both roles pick the same seven names** when each parsed the lists the other one sent. -/
 theorem negotiate_agree {c s : LocalAlgs} {ck sk : Bytes} {n1 n2 : Negotiated} (hm : MarkerFree c s)
